@@ -71,7 +71,7 @@ CHECKS = {
          "DESIGN.md 3 C15"),
  "C16": ("bounded-exhaustive enumeration of programs over a label-structure alphabet; oracle recomputed from the text (defined / undefined / duplicate labels) plus location checks by the locator",
          "All programs of 1..4 (quick) / 1..5 (thorough) lines over 17 symbols (definitions of A and B incl. duplicates, uses of A, B and undefined U, V in j / beq / jal / la, ret, an instruction, an exit, .data / .word / .text): Manager::run must succeed or fail with a specific error that names exactly the undefined labels at one of their uses, or the duplicated label at a later definition, or is otherwise located on text of the file - never a generic unexpected/assertion error, never the nil file; for every 50th failing program the error must be visible in the default output of the rva binary.",
-         "Trusted: the harness's textual notion of definition/use. Programs are tiny; richer failure modes (if any exist) outside the alphabet are not covered.",
+         "Trusted: the harness's textual notion of definition/use. Programs are tiny; beyond the alphabet only four fixed never-returning-function programs are covered. A panic of the analysis counts as a violation (a failure explained nowhere in the user's files).",
          "DESIGN.md 3 C16"),
  "C17": ("bounded-exhaustive enumeration of literal spellings against independent literal semantics",
          "Complete enumeration of a finite family: ~8000 spellings (every boundary value 2^k, 2^k+-1 for k<=33 and bit patterns x decimal/hex/binary notation x sign x letter case x leading zeros, every printable ASCII character literal and escape, malformed spellings) x 4 operand contexts (li, lui, .word, csrr), each through the real lexer+parser and, for li/lui, the resulting Constant fact of the value analysis, in a release and an overflow-checked build; acceptance, value and error location are compared with literal semantics written in the harness.",
